@@ -22,6 +22,7 @@ def _eval(c, sub, out, search=False):
 
 def run(c):
     c.proofs("theories/Properties/C06.v", clean=(c.tier == "thorough"))
+    c.translate(['TieIds'])  # T1: formulas / constants regenerated from the source, tie theorems re-checked
     quick = c.tier == "quick"
     n = {"ref": 1500 if quick else 20000, "hist": 250 if quick else 3000, "tm": 150 if quick else 2000,
          "race": 1500 if quick else 30000}
